@@ -135,13 +135,19 @@ def norm_url(u):
 A_RE = re.compile(r'^<p><a(?: href="([^"]*)")?>(.*?)</a></p>$', re.S)
 
 
-def convert(md, base, abstract, ctx_id, text, path=None):
-    """real conversion of one reference; -> ("link", [candidate ids], href, text) | ("plain", text) | ("err", type)"""
+def convert(md, base, abstract, ctx_id, text, path=None, after=None):
+    """real conversion of one reference; -> ("link", [candidate ids], href, text) | ("plain", text) | ("err", type).
+    [after]: an entity id; its documentation is converted first on the same MetaMarkdown instance and the
+    reference is then converted *without* reset(), as ford.main does with the summary"""
     import html
     ctx = abstract.objs[ctx_id] if ctx_id is not None else None
     with F.quiet() as buf:
         try:
-            out = md.reset().convert(text, context=ctx, path=path)
+            if after is not None:
+                md.reset().convert("Some text.", context=abstract.objs[after])
+                out = md.convert(text, context=ctx, path=path)
+            else:
+                out = md.reset().convert(text, context=ctx, path=path)
         except Exception as e:  # noqa
             return ("err", type(e).__name__, str(e)[:200])
     m = A_RE.match(out.strip())
